@@ -464,13 +464,57 @@ func openBase(in *Interp) {
 		if !ok {
 			in.argError(2, "rep", "number expected")
 		}
-		if n > 100 {
+		if n > 100 && n*float64(len(s)) > 20000 {
 			in.indet("long rep")
 		}
 		if n < 0 {
 			n = 0
 		}
 		return []Value{strings.Repeat(s, int(n))}
+	})
+	reg(str, "byte", func(in *Interp, a []Value) []Value {
+		s := checkStr(in, a, 0, "byte")
+		i, j := 1.0, 0.0
+		if v := arg(a, 1); v != nil {
+			f, ok := in.tonumber(v)
+			if !ok || f != math.Floor(f) {
+				in.indet("string.byte position")
+			}
+			i = f
+		}
+		j = i
+		if v := arg(a, 2); v != nil {
+			f, ok := in.tonumber(v)
+			if !ok || f != math.Floor(f) {
+				in.indet("string.byte position")
+			}
+			j = f
+		}
+		l := float64(len(s))
+		if i < 0 {
+			i = l + i + 1
+		}
+		if j < 0 {
+			j = l + j + 1
+		}
+		if i < 1 {
+			i = 1
+		}
+		if j > l {
+			j = l
+		}
+		if i > j {
+			return nil
+		}
+		if j-i+1 >= 8000 {
+			// lstrlib.c str_byte: luaL_checkstack(L, n, "string slice too long")
+			in.throw(&Opaque{Kind: "anystring", Rest: "string slice too long"})
+		}
+		var out []Value
+		for k := int(i); k <= int(j); k++ {
+			out = append(out, float64(s[k-1]))
+		}
+		return out
 	})
 	reg(str, "sub", func(in *Interp, a []Value) []Value {
 		s := checkStr(in, a, 0, "sub")
